@@ -205,9 +205,17 @@ def tree_hash():
 
 def load_findings():
     p = os.path.join(VERIF, "KNOWN_FINDINGS.json")
-    if not os.path.exists(p):
-        return {"findings": [], "fixed": []}
-    return json.load(open(p))
+    res = {"findings": [], "fixed": []}
+    if os.path.exists(p):
+        res = json.load(open(p))
+    # entries proposed by property plug-ins under development; consolidated into KNOWN_FINDINGS.json before release
+    for f in sorted(glob.glob(os.path.join(VERIF, "findings.d", "*.json"))):
+        try:
+            extra = json.load(open(f))
+            res["findings"] += extra.get("findings", [])
+        except Exception:
+            pass
+    return res
 
 
 def known_keys(pid):
